@@ -72,7 +72,10 @@ func ownerTxn(owner string) int {
 // stateLine is the implementation's answer to one `step` line (mirrors OccProto.showState).
 func (p *Proc) stateLine(w *World, procs []*Proc, withResults bool) string {
 	s := fmt.Sprintf("at=%s res=%s", p.At, p.Result())
-	if !p.Done() {
+	if p.At == "ldel" {
+		// on its way through unlock(): only the isLockOwner flags matter from here on
+		s += fmt.Sprintf(" own=%s", ints(p.OwnAfter))
+	} else if !p.Done() {
 		s += fmt.Sprintf(" own=%s tr=%s pg=%s", ints(p.OwnAfter), p.Tracked, p.PageSets)
 	}
 	s += " recs=" + RecsString(w.LockRecords(procs))
@@ -621,6 +624,43 @@ func (o *Outcome) Signature(c Case) string {
 			if (op.Kind == "add" || op.Kind == "addne" || op.Kind == "ups") && p.Results[j].OK && p.Results[j].Item >= 1000 &&
 				!final[p.Results[j].Item] && !removed[op.Key] && plocks >= 3 {
 				return "C02/add-lost-after-second-refetch"
+			}
+		}
+	}
+	// (4) a committed transaction wrote again to an item it had added itself, went through a refetch-and-merge, and the
+	// item ended up with the value of the add (the replay inserts the tracker's copy of the added item, which the
+	// later update did not touch)
+	for i, p := range o.Procs {
+		if !committed[i] {
+			continue
+		}
+		plocks := 0
+		for _, t := range p.Trace {
+			if t == "plock" {
+				plocks++
+			}
+		}
+		if plocks < 2 {
+			continue
+		}
+		for j, op := range p.Prog.Ops {
+			if !((op.Kind == "add" || op.Kind == "addne" || op.Kind == "ups") && p.Results[j].OK && p.Results[j].Item >= 1000) {
+				continue
+			}
+			rewritten := false
+			for j2 := j + 1; j2 < len(p.Prog.Ops); j2++ {
+				o2 := p.Prog.Ops[j2]
+				if o2.Key == op.Key && p.Results[j2].OK && (o2.Kind == "ups" || o2.Kind == "upd" || o2.Kind == "updf") && p.Results[j2].Written != op.Val {
+					rewritten = true
+				}
+			}
+			if !rewritten {
+				continue
+			}
+			for _, r := range o.Final {
+				if r.Item == p.Results[j].Item && r.Val == op.Val {
+					return "C02/update-of-own-add-lost-after-refetch"
+				}
 			}
 		}
 	}
